@@ -56,6 +56,7 @@ ASSUMPTIONS = [
     "pairwise_to_multiple is judged on arbitrary valid pairwise alignments (no column of two gaps); the class of the input "
     "(every input emittable by the pair-HMM, i.e. no insertion adjacent to a deletion / not) is part of the failure signature",
     "align_to_ref(ref_seq='longest') may pick any sequence of maximal length",
+    "a column consisting only of gaps is not an alignment column: a result containing one is reported (own signature)",
     "progressive alignment: only row length, names and degapped content are judged (the statement gives no optimality claim); "
     "the root Viterbi score must be the same for both Hirschberg settings whenever both settings produced the same child alignment",
     "tree_align without a guide tree is judged only when it returns an alignment (distance estimation may legitimately fail on "
@@ -88,22 +89,23 @@ TIERS = {
     },
     "thorough": {
         "pair_spaces": [["ACGT", 4], ["AC", 5], ["AG", 5]],
-        "gaps": [[1, 1], [4, 1], [10, 2], [20, 2], [0, 0], [2, 3]],
-        "long": {"s1_len": [6, 7], "s2_max": 4, "gaps": [[1, 1], [4, 1], [10, 2], [0, 0]],
-                 "scorings": ["m1ts-1tv-1", "m10ts-1tv-8", "m2ts0tv-3"]},
+        "gaps": [[1, 1], [4, 1], [10, 2], [20, 2], [0, 0]],
+        "long": {"s1_len": [6, 7], "s2_max": 3, "gaps": [[1, 1], [4, 1], [10, 2], [0, 0]],
+                 "scorings": ["m1ts-1tv-1", "m10ts-1tv-8"]},
         "asym_len": 3,
         "p2m": [{"ref": 1, "other": 4, "k": 2}, {"ref": 2, "other": 4, "k": 2}, {"ref": 3, "other": 4, "k": 2},
                 {"ref": 4, "other": 4, "k": 2, "max_cols": 6}, {"ref": 5, "other": 3, "k": 2, "max_cols": 6},
                 {"ref": 4, "other": 4, "k": 1}, {"ref": 5, "other": 4, "k": 1},
                 {"ref": 2, "other": 2, "k": 3}, {"ref": 3, "other": 2, "k": 3}, {"ref": 4, "other": 1, "k": 3}],
         "ref": {"alphabet": "AC",
-                "named": [{"ref_max": 4, "other_max": 4, "k": 2, "positions": [0, 1, 2], "settings": ["gappy", "default"]},
+                "named": [{"ref_max": 4, "other_max": 4, "k": 2, "positions": [0, 2], "settings": ["gappy"]},
+                          {"ref_max": 4, "other_max": 4, "k": 2, "positions": [1], "settings": ["default"]},
                           {"ref_max": 4, "other_max": 4, "k": 1, "positions": [0, 1], "settings": ["gappy", "default"]},
                           {"ref_max": 3, "other_max": 2, "k": 3, "positions": [0, 3], "settings": ["gappy"]}],
                 "longest": [{"max_len": 3, "k": 2, "settings": ["gappy", "default"]},
                             {"max_len": 4, "k": 1, "settings": ["gappy", "default"]}]},
         "prog": {"alphabet": "AC", "max_len": 3, "trees": ["((a,b),c)", "(a,(b,c))", "((a,c),b)", "(a,b,c)"],
-                 "indel_rates": [0.1, 1e-10, 0.5], "app_tree": "(a:0.1,(b:0.2,c:0.1):0.1)", "none_tree": True,
+                 "indel_rates": [0.1, 1e-10], "app_tree": "(a:0.1,(b:0.2,c:0.1):0.1)", "none_tree": True,
                  "root_score": ["((a,b),c)", "(a,(b,c))", "((a,c),b)"]},
     },
 }
@@ -416,7 +418,11 @@ def check_p2m(m, items, acc, cache=None):
     if verdict != "ok":
         detail["difference"] = ("aligned residue pairs differ" if verdict == "pairs"
                                 else "only the order of adjacent insertion/deletion columns differs")
+        detail["all_gap_columns"] = _all_gap_columns(rows)
         acc.fail(f"pairwise_to_multiple: projection onto (ref,row) != input pairwise alignment {cls}", case, detail)
+    elif _all_gap_columns(rows):
+        verdict = "allgap"
+        acc.fail(f"pairwise_to_multiple: result has a column consisting only of gaps {cls}", case, detail)
     acc.outcome(("p2m", verdict, emittable, len(rows[0]) - m))
     acc.count("p2m_emittable" if emittable else "p2m_not_emittable")
     # the inputs are not modified (pure function)
@@ -426,6 +432,10 @@ def check_p2m(m, items, acc, cache=None):
             acc.fail("pairwise_to_multiple: modified its input alignment", case, detail)
             cache.clear()
             break
+
+
+def _all_gap_columns(rows):
+    return [c for c in range(len(rows[0])) if all(r[c] == "-" for r in rows)]
 
 
 def _ref_gap_profile(path):
@@ -518,7 +528,9 @@ def check_ref(seqs, refchoice, setting, acc):
             break
     if problems:
         acc.fail(f"align_to_ref: projection onto (ref,row) != global_pairwise(ref,row) {cls}", case,
-                 {"result": rows, "problems": problems[:3]})
+                 {"result": rows, "problems": problems[:3], "all_gap_columns": _all_gap_columns(rows)})
+    elif _all_gap_columns(rows):
+        acc.fail(f"align_to_ref: result has a column consisting only of gaps {cls}", case, detail)
     acc.outcome(("ref", tuple(H.path_of_rows(*H.project(rows, cands[0], i)) for i in range(len(seqs)) if i != cands[0])))
 
 
@@ -534,6 +546,8 @@ def _check_rows(op, cls, dd, names, seqs, case, acc):
     if [r.replace("-", "") for r in rows] != list(seqs):
         acc.fail(f"{op}: degapped rows != inputs {cls}", case, {"result": rows})
         return None
+    if _all_gap_columns(rows):
+        acc.fail(f"{op}: result has a column consisting only of gaps {cls}", case, {"result": rows})
     return rows
 
 
@@ -564,7 +578,7 @@ def check_prog(seqs, tree, indel_rate, via, acc, root_score=False):
     results = {}
     for setting, limit in (("full", HUGE), ("hirschberg", 0)):
         before = _HCALLS[0]
-        op = {"tree_align": "tree_align", "app": "progressive_align", "none": "tree_align(tree=None)"}[via]
+        op = {"tree_align": "tree_align", "app": "progressive_align", "none": "tree_align"}[via]
         cls = f"[{'Hirschberg' if limit == 0 else 'full DP'}]"
         with _Limit(limit):
             try:
@@ -641,7 +655,8 @@ def shards(tier, seed):
                 nch = 2 ** max(0, L - 5)
                 for c in range(nch):
                     out.append({"part": "long", "L": L, "scoring": sname, "d": d, "e": e, "chunk": c, "of": nch})
-    out.append({"part": "asym", "max_len": t["asym_len"]})
+    for d, e in ((4, 1), (1, 1)):
+        out.append({"part": "asym", "max_len": t["asym_len"], "d": d, "e": e})
     for spec in t["p2m"]:
         n1 = len(p2m_inputs(spec["ref"], spec["other"], spec.get("max_cols")))
         total = n1 ** spec["k"]
@@ -651,18 +666,26 @@ def shards(tier, seed):
     rf = t["ref"]
     for spec in rf["named"]:
         for setting in spec["settings"]:
-            for i in range(len(list(strings(rf["alphabet"], 1, spec["ref_max"])))):
-                out.append({"part": "ref", "kind": "named", **{k: v for k, v in spec.items() if k != "settings"},
-                            "setting": setting, "first": i})
+            for i, ref in enumerate(strings(rf["alphabet"], 1, spec["ref_max"])):
+                if not canonical(ref):
+                    continue  # every tuple starting with this reference has a smaller relabelling
+                nch = 4 if spec["k"] >= 2 else 1
+                for c in range(nch):
+                    out.append({"part": "ref", "kind": "named", **{k: v for k, v in spec.items() if k != "settings"},
+                                "setting": setting, "first": i, "chunk": c, "of": nch})
     for spec in rf["longest"]:
         for setting in spec["settings"]:
             for i in range(len(list(strings(rf["alphabet"], 1, spec["max_len"])))):
                 out.append({"part": "ref", "kind": "longest", "max_len": spec["max_len"], "k": spec["k"],
                             "setting": setting, "first": i})
     pg = t["prog"]
-    for i in range(len(list(strings(pg["alphabet"], 1, pg["max_len"])))):
-        for rate in pg["indel_rates"]:
-            out.append({"part": "prog", "first": i, "rate": rate})
+    pss = list(strings(pg["alphabet"], 1, pg["max_len"]))
+    for i, first in enumerate(pss):
+        for j, second in enumerate(pss):
+            if not canonical(first, second):
+                continue  # no triple starting with this pair is the representative of its orbit
+            for rate in pg["indel_rates"]:
+                out.append({"part": "prog", "first": i, "second": j, "rate": rate})
     for sp in out:
         sp["tier"] = tier
     return out
@@ -693,10 +716,9 @@ def run_shard(spec, acc):
         acc.sample({"part": "long", "s1_len": spec["L"], "gap": [spec["d"], spec["e"]]}, "long")
     elif part == "asym":
         ss = list(strings("ACGT", 1, spec["max_len"]))
-        for d, e in ((4, 1), (1, 1)):
-            for s1 in ss:
-                for s2 in ss:
-                    check_pair(s1, s2, ASYM, d, e, acc, modes=("full", "local"), part="asym")
+        for s1 in ss:
+            for s2 in ss:
+                check_pair(s1, s2, ASYM, spec["d"], spec["e"], acc, modes=("full", "local"), part="asym")
     elif part == "p2m":
         m, k = spec["ref"], spec["k"]
         inputs = p2m_inputs(m, spec["other"], spec.get("max_cols"))
@@ -714,8 +736,8 @@ def run_shard(spec, acc):
         if spec["kind"] == "named":
             ref = list(strings(alphabet, 1, spec["ref_max"]))[spec["first"]]
             others = list(strings(alphabet, 1, spec["other_max"]))
-            for rest in itertools.product(others, repeat=k):
-                if not canonical(ref, *rest):
+            for idx, rest in enumerate(itertools.product(others, repeat=k)):
+                if idx % spec["of"] != spec["chunk"] or not canonical(ref, *rest):
                     continue
                 for pos in spec["positions"]:
                     seqs = list(rest)
@@ -731,11 +753,11 @@ def run_shard(spec, acc):
     elif part == "prog":
         pg = t["prog"]
         ss = list(strings(pg["alphabet"], 1, pg["max_len"]))
-        first = ss[spec["first"]]
+        first, second = ss[spec["first"]], ss[spec["second"]]
         rate = spec["rate"]
         primary = rate == pg["indel_rates"][0]
-        for rest in itertools.product(ss, repeat=2):
-            seqs = [first, *rest]
+        for third in ss:
+            seqs = [first, second, third]
             if not canonical(*seqs):
                 continue
             for tree in pg["trees"]:
